@@ -247,6 +247,7 @@ pub fn minimize(case: &Case, finding: &Finding, budget: usize) -> (Case, Finding
     if m.best.path_form != PathForm::Explicit && m.best.hardlinks.is_empty() {
         let mut c = m.best.clone();
         c.path_form = PathForm::Explicit;
+        c.explicit_real = true;
         c.path_args.clear();
         m.attempt(c);
     }
